@@ -114,7 +114,11 @@ func vTraceHook(ev string, fields ...interface{}) {
 		return
 	}
 	vTickMu.Lock()
-	vTicks = append(vTicks, vTick{fields[0].(string), fields[1].(string), fields[2].(bool), fields[3].(bool)})
+	inISR := false
+	if p, ok := fields[3].(*partition); ok && p != nil {
+		inISR = p.inISR(fields[1].(string))
+	}
+	vTicks = append(vTicks, vTick{fields[0].(string), fields[1].(string), fields[2].(bool), inISR})
 	vTickMu.Unlock()
 }
 
